@@ -33,6 +33,19 @@ check("C05",
   "Start-up phase of the density rule: M1 lenient, M3 strict (code's), chains between the readings are don't-cares; blocks are spaced >= 2 heartbeats so no routing work is needed; builders bypass the density rule to be able to produce descendants of violators.",
   "DESIGN.md §3 C05")
 
+check("C02",
+  "explicit-state exploration of the implementation: producer histories, fork trees and a boundary amount sweep, conservation oracle in 128-bit arithmetic after every accepted block",
+  "model_checking",
+  "Conservation (in-window outputs per reference ledger + treasury + graveyard + unpaid + collected fees == issued, u128) is evaluated after every block accepted in (1) every script of the C07 producer world (three configurations incl. staking, fee levels, routed/unrouted payers, golden ticket present/absent, fast/slow blocks, two window wraps, a treasury-rich variant), (2) every tree shape of n blocks over a stem at genesis period 3 in two delivery orders (reorganisations across the window edge), and per transaction sum(out) <= sum(in); plus every output vector of length <=3 over eight boundary amounts (0,1,in,in+1,2^63-1,2^63,2^64-in,2^64-1) through the verification gate.",
+  "The node's wrapping u64 supply check is not the oracle (a panic there is itself reported). Rebroadcasts with a treasury payout are never accepted on the pinned tree (C07 known finding), so that path is not covered.",
+  "DESIGN.md §3 C02")
+check("C07",
+  "explicit-state exploration of the implementation: deviation-bounded and exhaustive-prefix round scripts on the real producer, differential acceptance on an independent node",
+  "model_checking",
+  "Rounds of {submit transaction variant (fee 0/small/large, 0-2 hop routing paths ending or not at the producer, two payers), golden ticket available or not, elapsed time 0.5/1/2/3 heartbeats, Mempool::bundle_block} from genesis through two window wraps (2g+4 rounds; g=3, g=3 with staking, g=4, treasury-rich variant): default script with <=1 (quick) / <=2 (thorough) deviations from a 48-symbol round alphabet and the exhaustive product of the first two rounds from a fresh and a just-wrapped chain. Every produced block must be accepted by the producer and, as bytes, by an independent node; both chain states must then agree; no block produced => pool unchanged.",
+  "Producer K0 and twin K9 share only bytes. Heartbeat 5000 ms; the hash-dependent minimum spacing in can_bundle_block makes some fast rounds produce no block (counted).",
+  "DESIGN.md §3 C07")
+
 NOT_YET = "check not built yet in this session (work in progress, see DESIGN.md §8 build order); nothing is claimed for it"
 NA = {}
 
